@@ -6,8 +6,8 @@ PROPS["C12"] = dict(
                "After every step the set of live PDU objects reported by the lifetime hook must equal the set reachable from the roots, each layer exactly once, parent links must name the owner; "
                "copies must equal their source in every getter and in serialization at copy time and must not change when the other side is edited.",
     level_note="Trusted: the registry (60 lines) and the typed operation table generated from the class list of the current headers. Self-move is excluded; a PtrPacket is converted to an owning Packet at most once.",
-    phases=[dict(name="programs", harness="c12.cpp", flavor="asan", mode="programs", cases=dict(quick=20000, thorough=300000)),
-            dict(name="options", harness="c12.cpp", flavor="asan", mode="options", cases=dict(quick=20000, thorough=500000))],
+    phases=[dict(name="programs", harness="c12.cpp", flavor="asan", mode="programs", cases=dict(quick=20000, thorough=120000)),
+            dict(name="options", harness="c12.cpp", flavor="asan", mode="options", cases=dict(quick=20000, thorough=200000))],
     rule="case = random ownership program; distinct = distinct program text; every program is checked after each step",
     floors=dict(any={"distinct": 15000, "forest_checks": 250000, "deep_equality_checks": 50000, "op:copy-assign-shorter-over-longer": 1000, "op:copy-assign-longer-over-shorter": 1000,
                      "op:self-assign": 2500, "op:move-assign": 2500, "op:move-construct": 2500, "op:release": 2500, "op:inner_pdu-ptr": 2500, "op:packet-wrap": 2500,
